@@ -79,7 +79,8 @@ bool startsWith(const std::string& s, const char* p);
 /** A run class: a scenario generator and an executor. One run == one forked child. */
 struct RunClass {
     const char* name;
-    const char* property;   // property id(s) this class primarily serves
+    const char* property;   // property id this class primarily serves
+    const char* kind;       // "session" (real UCIProtocol::main under vsim) or "unit" (component harness)
     void (*gen)(uint64_t seed, int tier, Scenario& sc);
     void (*run)(const Scenario& sc, Result& res);
 };
